@@ -26,6 +26,15 @@ func registerVerifExtensions() {
 			vcountN++
 			return object.Integer{Value: vcountN}
 		}})
+	// vgate() is impure too and FAILS on every odd call of a run: an extension whose error depends on outside state
+	_ = object.CreateFunction(object.Extension{Name: "vgate", MinArgs: 0, MaxArgs: 0, DontCache: true,
+		Callback: func(_ any, _ string, _ []object.Object) object.Object {
+			vcountN++
+			if vcountN%2 == 1 {
+				return object.Error{Value: "vgate: closed"}
+			}
+			return object.Integer{Value: vcountN}
+		}})
 }
 
 type memoOp struct {
@@ -254,6 +263,20 @@ func checkC04(c *Ctx) {
 		`str(P)`, `min(x, P)`, `(n => n + 1)(P)`, `m = {}; m[P] = 1; len(m)`, `a = [0, 0]; a[P % 2] = 5; a`} {
 		body := strings.ReplaceAll(pos, "P", "fprint(x)")
 		pinned = append(pinned, append(append([]string{}, memoPrelude...), "fadd2 = func(a, b) {a + b}", "fw = func(x) {"+body+"}", "println(catch(fw(1)))", "println(catch(fw(1)))", "println(catch(fw(2)), catch(fw(1)))"))
+	}
+	// 4d. an impure extension that fails or succeeds depending on outside state, caught inside a user function; closures with the
+	//     same text and different captured values passed to functions that only store or return them
+	for _, in := range [][]string{
+		{"fg = func(x) {r = catch(vgate()); if r.err {-1} else {r.value}}", "println(fg(1))", "println(fg(1))", "println(fg(1), fg(1))", "println(fg(2))"},
+		{"fg = func(x) {catch(vgate()).err}", "w = func(x) {fg(x)}", "println(w(1))", "println(w(1))", "println(w(1), w(1))"},
+		{"mk = func(v) {func(y) {y + v}}", "box = func(g) {[g]}", "println(box(mk(1))[0](0))", "println(box(mk(2))[0](0))", "println(box(mk(1))[0](0), box(mk(3))[0](0))"},
+		{"mk = func(v) {func(y) {y + v}}", "pick = func(g, h) {g}", "println(pick(mk(1), mk(5))(0))", "println(pick(mk(2), mk(5))(0))", "println(pick(mk(1), mk(6))(0))"},
+		{"mk = func(v) {func(y) {y + v}}", "compose = func(g, h) {func(x) {g(h(x))}}", "println(compose(mk(10), mk(10))(0))", "println(compose(mk(1), mk(1))(0))", "println(compose(mk(10), mk(1))(0))"},
+		{"mk = func(v) {func(y) {y + v}}", `hold = func(g) {{"f": g}}`, "println(hold(mk(4)).f(0))", "println(hold(mk(3)).f(0))"},
+		{"mk = func(v) {func() {v}}", "ident = func(g) {g}", "println(ident(mk([1]))())", "println(ident(mk([2]))())", `println(ident(mk("s"))())`},
+		{"mk = func(v) {func(y) {y + v}}", "app = func(g, x) {g(x)}", "println(app(mk(1), 1))", "println(app(mk(2), 1))", "println(app(mk(1), 1))"},
+	} {
+		pinned = append(pinned, in)
 	}
 	// 5. key confusion matrix: every function shape called with every ordered pair of argument lists that a sloppy cache key
 	//    could identify (int / float / string of the same digits, 0.0 / -0.0 / 0, an array / its spread / its nesting,
